@@ -141,13 +141,14 @@ func open(g lstore.Geometry) *env { return openD(g, true) }
 
 func openD(g lstore.Geometry, daemons bool) *env {
 	med := lstore.NewMedia(g)
-	s := lstore.Open(g, med)
-	e := &env{s: s, manual: g.Persistent && !daemons}
+	e := &env{manual: g.Persistent && !daemons}
+	opt := lstore.OpenOptions{}
 	if g.Persistent && daemons {
 		ctx, cancel := context.WithCancel(context.Background())
 		e.cancel = cancel
-		s.StartSyncers(ctx, nil)
+		opt.Ctx = ctx
 	}
+	e.s = lstore.OpenWith(g, med, opt)
 	return e
 }
 
